@@ -74,6 +74,30 @@ def chosenCovered (s : TState) (a : AllocReq) (ms : List Nat) : Bool :=
                    | some f => coveredB a.req f
                    | none => true)
 
+/-! ### scheduler histories (hypothesis of `sched_no_overcommit`) -/
+
+/-- ops that cannot create an over-commit, decidable in the state they are applied to:
+    an accepted add is an allocator-consistent commit (one entry per minor; every entry non-negative, on a device
+    whose free entry satisfies `LessThanOrEqual(entry, free)` and exposes every key of the entry) — this is what
+    Reserve commits; removals carry non-negative amounts (anything else is allowed: a removal never raises `used`);
+    an inventory refresh does not go below what is in use. -/
+def schedOK (s : TState) : Op → Bool
+  | .add p al =>
+    hasPod s p ||
+      (nodupB (al.map (·.1)) &&
+        al.all (fun e => rlNonneg e.2 &&
+          match drGet s.free e.1 with
+          | some f => rlLeq e.2 f && coveredB e.2 f
+          | none => false))
+  | .remove _ al => amountsOK al
+  | .refresh nt =>
+    invOK nt &&
+      s.used.all (fun e => (List.range e.2.length).all (fun k => decide (rlVal e.2 k ≤ drVal nt e.1 k)))
+
+def histSched : TState → List Op → Bool
+  | _, [] => true
+  | s, op :: rest => schedOK s op && histSched (step s op) rest
+
 /-! ### informer events: eventhandler_pod.go updatePod / deletePod, seen from ONE device type
 
 A pod object as the handlers read it: `assigned` ⇔ `Spec.NodeName != ""`, `terminated` ⇔ `util.IsPodTerminated`,
